@@ -582,9 +582,51 @@ def gc_scenarios(tier, stores):
     for u, g in ((True, True), (False, True), (True, False)):
         scs.append(dict(name="gcD-%s%s" % ("U" if u else "u", "G" if g else "g"), profile="gc", contents=["m1"], algs=["sha256"], depth=(14, 24), num=(20, 150),
                         stores=stores, obs=[], nrepos=2, cfg={"untagged": u, "dangling": False, "withSubj": False, "grace": g, "emptyRepo": True}))
+    # two images, three tags, untagged collection: tags moved and deleted, manifests deleted by digest (the order of the entries
+    # of one digest in the index changes), then collections
+    for g in (True, False):
+        scs.append(dict(name="gcT-%s" % ("G" if g else "g"), profile="gctags", contents=["m1", "m2"], algs=["sha256"], depth=(18, 28), num=(30, 200),
+                        stores=stores, obs=[], nrepos=1, ntags=3, cfg={"untagged": True, "dangling": False, "withSubj": False, "grace": g, "emptyRepo": False}))
+    scs.append(dict(name="gcorder", static_programs=gc_order_programs, obs=[]))
     scs[0]["mc_contents"] = ["m1", "a1"]
     scs[0]["mc_depth"] = (4, 5)
     return scs
+
+
+def gc_order_programs(seed):
+    """Directed histories: the entries of one digest end up in the index in every order (tagged entry, untagged left-over of a
+    deleted tag, before / after each other) before an untagged collection runs; what a collection keeps must not depend on it."""
+    import itertools
+    def blob(b):
+        return {"op": "PushBlob", "repo": "r1", "dig": "sha256:" + b, "chunk": {"c": b, "p": "all"}, "which": "chunked", "alg": ""}
+    def put(c, ref):
+        return {"op": "ManPut", "repo": "r1", "ref": ref, "ctype": "oci.image", "ctvar": "", "body": c, "lenKnown": True, "dparam": ""}
+    def tag(t):
+        return {"k": "tag", "v": t}
+    def dig(c):
+        return {"k": "dig", "v": "sha256:" + c}
+    def dele(ref):
+        return {"op": "ManDel", "repo": "r1", "ref": ref}
+    progs = []
+    k = 0
+    for D, X in (("m1", "m2"), ("m2", "m1")):
+        for keep, drop in (("t2", "t3"), ("t3", "t2")):
+            for first in ("X", "D", "Ddig"):
+                for grace in (True, False):
+                    ops = [blob("b1"), blob("b2"), blob("b3")]
+                    if first == "X":
+                        ops += [put(X, tag("t1")), put(D, tag(keep)), put(D, tag(drop))]
+                    elif first == "D":
+                        ops += [put(D, tag(keep)), put(X, tag("t1")), put(D, tag(drop))]
+                    else:
+                        ops += [put(X, tag("t1")), put(D, dig(D)), put(D, tag(drop)), put(D, tag(keep))]
+                    ops += [dele(tag(drop)), dele(dig(X)), {"op": "Age", "repo": "r1"}, {"op": "GC", "repo": "r1"},
+                            {"op": "TagsList", "repo": "r1", "method": "GET", "n": "100", "ni": 100, "nc": "pos", "last": 0}, {"op": "GC", "repo": "r1"}, {"op": "Restart"}]
+                    cfg = dict(DEFAULT_CFG, untagged=True, grace=grace, emptyRepo=False)
+                    progs.append({"id": "gcorder-%d" % k, "cfg": cfg, "contents": ["m1", "m2"], "algs": ["sha256"], "ntags": 3, "repos": ["proj/app"], "seed": k,
+                                  "tagstyle": 0, "pre": "", "sentinel": False, "ops": ops, "stores": ["mem", "dir"]})
+                    k += 1
+    return progs
 
 
 def c05(prop, tier, seed, work):
